@@ -349,6 +349,9 @@ def case_history(c: dict) -> dict:
         "matchDeflagOrHyb(vJ)": [("matchDeflagOrHyb", float(probe.vJ) - 1e-10)],
         "findvwLTE": [("findvwLTE", None)],
         "findMatching(slow1),findMatching(vmin)": [("findMatching", vel.get("slow1")), ("findMatching", vel.get("vmin"))],
+        # a scan over Tn that re-uses ONE thermodynamics object (model.Tnucl = T; Hydrodynamics(model, ...)) and evaluates the
+        # objects later: each Hydrodynamics keeps the nucleation temperature it was built with for everything it computes
+        "thermodynamics.Tnucl-reassigned": [("__set_th_Tnucl__", 0.93 * Tn)],
     }
     nflag = 0
     for hname, ops in histories.items():
@@ -356,6 +359,9 @@ def case_history(c: dict) -> dict:
             continue
         h = fresh()
         for op, a in ops:
+            if op == "__set_th_Tnucl__":
+                h.thermodynamics.Tnucl = a
+                continue
             try:
                 getattr(h, op)(*([] if a is None else [a]))
             except Exception:
